@@ -32,6 +32,7 @@ structure SeqSt where
   heap  : Heap Task := {}
   insts : List (Nat × SeqInst) := []
   dead  : Bool := false
+  n     : Nat := 0          -- lines of this section seen so far
 
 def SeqSt.get (s : SeqSt) (k : Nat) : SeqInst := ((s.insts.find? fun p => p.1 == k).map (·.2)).getD {}
 def SeqSt.set (s : SeqSt) (k : Nat) (i : SeqInst) : SeqSt :=
@@ -88,6 +89,11 @@ def seqLine (sec : Nat) (acc : Report × SeqSt) (l : Line) : Report × SeqSt := 
   let impl := joinSp l.obs
   r := r.addCover ("seq-op-" ++ l.op.headD "?")
   if s.dead then return (r, s)
+  if impl = "stuck" then
+    -- the harness watchdog: the call did not come back and every goroutine of the package is parked
+    if s.n = 0 then return (r.addCover "seq-skipped-after-a-wedged-executor", { s with dead := true })
+    return (r.violation sec l.idx s!"{" ".intercalate l.op}: the call never returns (every goroutine is parked: the executor is wedged) — Add / Flush / Wait of the public API must come back, Wait when the callbacks of the tasks added before it have returned", { s with dead := true })
+  let s := { s with n := s.n + 1 }
   let bad := (r.mismatch sec l.idx "a known op" impl, { s with dead := true })
   let some k := (l.op.getD 1 "").toNat? | return bad
   let i := s.get k
